@@ -26,8 +26,3 @@ Definition entry_ok (e : obs * option vals) : bool :=
   | _ => true
   end.
 Definition spec_history (l : observed) : bool := forallb entry_ok l.
-
-(* the property as a proposition over an abstract machine: `answers` = observations of the history,
-   `oracle k` = the fresh interpreter's answer for the k-th operation when it is a parse *)
-Definition history_independent (answers : list obs) (oracle : nat -> option vals) : Prop :=
-  forall k r, nth_error answers k = Some (OParse r) -> oracle k = Some r.
